@@ -187,13 +187,31 @@ structure PlainKey (s : List Char) : Prop where
   str : resolvePlain s = .str s
   noMarker : ∀ after, isDocMarker ⟨0, s ++ ':' :: after⟩ "---".toList = false ∧
     isDocMarker ⟨0, s ++ ':' :: after⟩ "...".toList = false
+  /-- alone on a line (the explicit form `? key`): not a sequence entry / explicit-key indicator, no document marker -/
+  cls0 : classify s = .other
+  noMarker0 : isDocMarker ⟨0, s⟩ "---".toList = false ∧ isDocMarker ⟨0, s⟩ "...".toList = false
+
+/-- a plain key token is a plain scalar token as well (it holds no `:` at all) -/
+theorem PlainKey.plainVal {s : List Char} (h : PlainKey s) : PlainVal s := by
+  refine ⟨h.start, h.cls0, ?_, fun x hx => ⟨(h.chars x hx).1, (h.chars x hx).2.1⟩, h.last, h.str, h.noMarker0⟩
+  have hc : ∀ (t : List Char), (∀ x ∈ t, x ≠ ':') → noKeySep t = true := by
+    intro t
+    induction t with
+    | nil => intro _; rfl
+    | cons c cs ih =>
+      intro ht
+      have h1 : c ≠ ':' := ht c (by simp)
+      rw [noKeySep]
+      · exact ih (fun x hx => ht x (by simp [hx]))
+      · intro e; exact h1 e
+  exact hc s (fun x hx => (h.chars x hx).2.2)
 
 theorem PlainKey.keyTok {s : List Char} (h : PlainKey s) : KeyTok s s := by
   obtain ⟨c, cs, e, hc⟩ := h.start
   have hk := plainStart_key hc
   have hcolon : ':' ∉ s := fun hm => (h.chars ':' hm).2.2 rfl
   have hhash : '#' ∉ s := fun hm => (h.chars '#' hm).2.1 rfl
-  refine ⟨?_, h.cls, ⟨c, cs, e, hk⟩, fun x hx => (h.chars x hx).1, h.noMarker⟩
+  refine ⟨?_, h.cls, ⟨c, cs, e, hk⟩, fun x hx => (h.chars x hx).1, h.noMarker, h.plainVal.scalarTok⟩
   intro after ha
   have hne : ∀ x : Char, plainStart x = false → (c == x) = false := fun x hx => by
     simp only [beq_eq_false_iff_ne]; exact plainStart_ne hc x hx
